@@ -1324,7 +1324,7 @@ func main() {
 				fmt.Fprintf(&sb, "def %s_inBits : List Nat := %s\n", r.T.Name, intList(r.InBits))
 				fmt.Fprintf(&sb, "def %s_outs : List Nat := %s\n", r.T.Name, intList(r.Outs))
 				fmt.Fprintf(&sb, "def %s_outBits : List Nat := %s\n", r.T.Name, intList(r.OutBits))
-				fmt.Fprintf(&sb, "def %s_prog : List Op := [\n", r.T.Name)
+				fmt.Fprintf(&sb, "set_option maxRecDepth 1000000 in\ndef %s_prog : List Op := [\n", r.T.Name)
 				for i, o := range r.Ops {
 					sep := ","
 					if i == len(r.Ops)-1 {
